@@ -21,7 +21,7 @@ import (
 	"github.com/gammazero/nexus/v3/wamp"
 )
 
-const realmURI = wamp.URI("verif.realm")
+func realmName(i int) wamp.URI { return wamp.URI("verif.realm" + strconv.Itoa(i)) }
 
 // ---------------------------------------------------------------------------
 // key store for the ticket authenticator used by "remote" sessions
@@ -74,6 +74,7 @@ type peer struct {
 	subs    map[wamp.ID]subInfo
 	callReq map[wamp.ID]string
 	joined  bool
+	realm   int
 	local   bool
 	gone    bool // the router closed the transport
 }
@@ -107,6 +108,23 @@ func (c *canon) raw(n int) wamp.ID {
 	return wamp.ID(4_000_000_000 + n)
 }
 
+// realmCtx is the per-realm observation state: ids are canonicalised per realm.
+type realmCtx struct {
+	idx      int
+	uri      wamp.URI
+	cfg      Cfg
+	scn      string
+	alive    bool
+	sessC    *canon
+	subC     *canon
+	regC     *canon
+	pubC     *canon
+	badIDs   int
+	base     map[string]int
+	baseG    int
+	baseRegs map[wamp.ID]bool // registrations of the realm's own meta procedures
+}
+
 // Exec runs scenarios and writes trace events.
 type Exec struct {
 	enc    *json.Encoder
@@ -115,15 +133,9 @@ type Exec struct {
 	order  []string
 	quit   chan struct{}
 	start  time.Time
-	sessC  *canon
-	subC   *canon
-	regC   *canon
-	pubC   *canon
-	badIDs int
 	poison bool
-	baseRegs map[wamp.ID]bool // registrations of the realm's own meta procedures
-	base   map[string]int
-	baseG  int
+	*realmCtx
+	realms []*realmCtx
 }
 
 // NewExec creates an executor writing ndjson trace events to w.
@@ -150,44 +162,40 @@ func (x *Exec) RunScenario(sc *Scenario) {
 	x.order = nil
 	x.quit = make(chan struct{})
 	x.start = time.Now()
-	x.sessC, x.subC, x.regC, x.pubC = newCanon(), newCanon(), newCanon(), newCanon()
-	x.badIDs = 0
-
-	users := map[string]string{}
-	for _, u := range sc.Cfg.Users {
-		users[u.ID] = u.Role
-	}
-	rc := &router.RealmConfig{
-		URI:            realmURI,
-		StrictURI:      sc.Cfg.Strict,
-		AnonymousAuth:  true,
-		AllowDisclose:  sc.Cfg.Disclose,
-		EnableMetaKill: sc.Cfg.Metakill,
-		Authenticators: []auth.Authenticator{auth.NewTicketAuthenticator(&keyStore{users}, 0)},
-		RequireLocalAuthz: sc.Cfg.Lauthz,
-	}
-	if len(sc.Cfg.Authz) != 0 {
-		rc.Authorizer = &tableAuthorizer{rules: sc.Cfg.Authz}
-	}
 	x.poison = sc.Poison
-	for _, h := range sc.Cfg.Hcfg {
-		rc.TopicEventHistoryConfigs = append(rc.TopicEventHistoryConfigs,
-			&router.TopicEventHistoryConfig{Topic: wamp.URI(unchars(h.U)), MatchPolicy: h.M, Limit: h.N})
+
+	cfgs := sc.Realms
+	if len(cfgs) == 0 {
+		cfgs = []Cfg{sc.Cfg}
 	}
-	rt, err := router.NewRouter(&router.Config{RealmConfigs: []*router.RealmConfig{rc}}, log.New(io.Discard, "", 0))
+	x.realms = nil
+	rcfg := &router.Config{}
+	for i, c := range cfgs {
+		rc := &realmCtx{idx: i, uri: realmName(i), cfg: c, scn: sc.ID,
+			sessC: newCanon(), subC: newCanon(), regC: newCanon(), pubC: newCanon()}
+		if len(cfgs) > 1 {
+			rc.scn = sc.ID + "#" + strconv.Itoa(i)
+		}
+		x.realms = append(x.realms, rc)
+		switch {
+		case c.Template:
+			rcfg.RealmTemplate = x.realmConfig(rc)
+		case c.Late:
+		default:
+			rcfg.RealmConfigs = append(rcfg.RealmConfigs, x.realmConfig(rc))
+		}
+	}
+	rt, err := router.NewRouter(rcfg, log.New(io.Discard, "", 0))
 	if err != nil {
 		panic("harness: cannot create router: " + err.Error())
 	}
 	x.rt = rt
 	synctest.Wait()
-	// the ids of the pre-created history subscriptions are 1..n in configuration order
-	for i := range sc.Cfg.Hcfg {
-		x.subC.of(wamp.ID(i + 1))
+	for _, rc := range x.realms {
+		if !rc.cfg.Template && !rc.cfg.Late {
+			x.realmStarted(rc)
+		}
 	}
-	x.learnBaseline()
-	x.base, _, _ = router.VerifSnapshot(rt, realmURI)
-	x.baseG = x.routerGoroutines()
-	x.emit(Event{Ev: "reset", Scn: sc.ID, Cfg: normCfg(sc.Cfg)})
 
 	for _, in := range sc.Steps {
 		x.step(sc, in)
@@ -197,7 +205,7 @@ func (x *Exec) RunScenario(sc *Scenario) {
 		n := 0
 		for _, name := range append([]string{}, x.order...) {
 			if p := x.peers[name]; p.joined && !p.dropped && !p.gone {
-				x.step(sc, Input{Op: "leave", S: name, How: hows[n%len(hows)]})
+				x.step(sc, Input{Op: "leave", R: p.realm, S: name, How: hows[n%len(hows)]})
 				n++
 			}
 		}
@@ -208,6 +216,43 @@ func (x *Exec) RunScenario(sc *Scenario) {
 	close(x.quit)
 	rt.Close()
 	synctest.Wait()
+}
+
+func (x *Exec) realmConfig(rc *realmCtx) *router.RealmConfig {
+	users := map[string]string{}
+	for _, u := range rc.cfg.Users {
+		users[u.ID] = u.Role
+	}
+	c := &router.RealmConfig{
+		URI:               rc.uri,
+		StrictURI:         rc.cfg.Strict,
+		AnonymousAuth:     true,
+		AllowDisclose:     rc.cfg.Disclose,
+		EnableMetaKill:    rc.cfg.Metakill,
+		Authenticators:    []auth.Authenticator{auth.NewTicketAuthenticator(&keyStore{users}, 0)},
+		RequireLocalAuthz: rc.cfg.Lauthz,
+	}
+	if len(rc.cfg.Authz) != 0 {
+		c.Authorizer = &tableAuthorizer{rules: rc.cfg.Authz}
+	}
+	for _, h := range rc.cfg.Hcfg {
+		c.TopicEventHistoryConfigs = append(c.TopicEventHistoryConfigs,
+			&router.TopicEventHistoryConfig{Topic: wamp.URI(unchars(h.U)), MatchPolicy: h.M, Limit: h.N})
+	}
+	return c
+}
+
+// realmStarted takes the baselines of a realm that now exists and starts its trace.
+func (x *Exec) realmStarted(rc *realmCtx) {
+	x.realmCtx = rc
+	rc.alive = true
+	// the ids of the pre-created history subscriptions are 1..n in configuration order
+	for i := range rc.cfg.Hcfg {
+		rc.subC.of(wamp.ID(i + 1))
+	}
+	x.learnBaseline()
+	rc.base, _, _ = router.VerifSnapshot(x.rt, rc.uri)
+	x.emit(Event{Ev: "reset", Scn: rc.scn, Cfg: normCfg(rc.cfg), Now: x.nowMs()})
 }
 
 func normCfg(c Cfg) Cfg {
@@ -295,6 +340,7 @@ func (x *Exec) newPeer(name string, j Join) *peer {
 		subs:    map[wamp.ID]subInfo{},
 		callReq: map[wamp.ID]string{},
 	}
+	p.realm = x.idx
 	x.peers[name] = p
 	x.order = append(x.order, name)
 	var rp wamp.Peer = rtr
@@ -448,11 +494,20 @@ func pubOptions(x *Exec, o Opts) wamp.Dict {
 }
 
 func (x *Exec) step(sc *Scenario, in Input) {
+	if in.R < 0 || in.R >= len(x.realms) {
+		in.R = 0
+	}
+	x.realmCtx = x.realms[in.R]
 	p := x.peers[in.S]
 	live := p != nil && p.joined && !p.dropped && !p.gone
 	skip := func() {
 		in.Op = "skip"
-		x.emit(Event{Ev: "step", Scn: sc.ID, In: in, Now: x.nowMs()})
+		if x.alive {
+			x.emit(Event{Ev: "step", Scn: x.scn, In: in, Now: x.nowMs()})
+		}
+	}
+	if !x.alive && !(in.Op == "join" && x.cfg.Template) && in.Op != "addrealm" && in.Op != "advance" && in.Op != "snap" {
+		return // the realm does not exist (yet, or any more): nothing to send to
 	}
 	req := wamp.ID(in.Req)
 	uri := wamp.URI(unchars(in.URI))
@@ -463,8 +518,21 @@ func (x *Exec) step(sc *Scenario, in Input) {
 			return
 		}
 		p = x.newPeer(in.S, in.Join)
-		p.send(&wamp.Hello{Realm: realmURI, Details: helloDetails(in.Join)})
+		p.send(&wamp.Hello{Realm: x.uri, Details: helloDetails(in.Join)})
 		synctest.Wait()
+		if !x.alive {
+			// created from the realm template by this HELLO
+			rest := p.take()
+			x.realmStarted(x.realmCtx)
+			for _, st := range rest {
+				if _, ok := st.m.(*wamp.Welcome); ok {
+					x.base["realm.clients"]-- // the joining session is not part of the baseline
+				}
+			}
+			p.mu.Lock()
+			p.inbox = append(rest, p.inbox...)
+			p.mu.Unlock()
+		}
 		// answer a ticket challenge
 		p.mu.Lock()
 		var rest []stamped
@@ -606,25 +674,59 @@ func (x *Exec) step(sc *Scenario, in Input) {
 	case "advance":
 		time.Sleep(time.Duration(in.Ms) * time.Millisecond)
 	case "snap":
+	case "addrealm":
+		if x.alive || !x.cfg.Late {
+			return
+		}
+		if err := x.rt.AddRealm(x.realmConfig(x.realmCtx)); err != nil {
+			panic("harness: AddRealm: " + err.Error())
+		}
+		synctest.Wait()
+		x.realmStarted(x.realmCtx)
+		return
+	case "rmrealm":
+		x.rt.RemoveRealm(x.uri)
 	default:
 		panic("harness: unknown op " + in.Op)
 	}
 	synctest.Wait()
 
-	ev := Event{Ev: "step", Scn: sc.ID, In: in}
-	ev.Out, ev.Bind = x.collect(in)
-	ev.Now = x.nowMs()
-	ev.BadIDs = x.badIDs
-	if in.Op == "snap" {
-		ev.Snap, ev.Gor = x.snapshot()
+	outs, binds := x.collect(in)
+	for _, rc := range x.realms {
+		if !rc.alive {
+			continue
+		}
+		x.realmCtx = rc
+		ev := Event{Ev: "step", Scn: rc.scn, In: in}
+		switch {
+		case in.Op == "advance" || in.Op == "snap":
+			// time and the final snapshot are global: every realm's trace has them
+			ev.In.R = rc.idx
+		case rc.idx != in.R:
+			if len(outs[rc.idx]) == 0 {
+				continue
+			}
+			// something arrived in a realm that got no input (C11): logged as an
+			// input-less step, which the specification cannot explain
+			ev.In = Input{Op: "skip", R: rc.idx}
+		}
+		ev.Out, ev.Bind = outs[rc.idx], binds[rc.idx]
+		ev.Now = x.nowMs()
+		ev.BadIDs = rc.badIDs
+		if in.Op == "snap" {
+			ev.Snap, ev.Gor = x.snapshot()
+		}
+		x.emit(ev)
+		if in.Op == "rmrealm" && rc.idx == in.R {
+			rc.alive = false
+		}
 	}
-	x.emit(ev)
 }
 
 // snapshot returns the table sizes relative to the baseline taken right after
 // router start, and the number of router goroutines relative to the baseline.
 func (x *Exec) snapshot() ([]SnapKV, int) {
-	sizes, _, ok := router.VerifSnapshot(x.rt, realmURI)
+	sizes, _, ok := router.VerifSnapshot(x.rt, x.uri)
 	if !ok {
 		return []SnapKV{{"unavailable", 1}}, 0
 	}
@@ -637,7 +739,28 @@ func (x *Exec) snapshot() ([]SnapKV, int) {
 	for _, k := range keys {
 		out = append(out, SnapKV{k, sizes[k] - x.base[k]})
 	}
-	return out, x.routerGoroutines() - x.baseG
+	return out, x.goroutineExcess()
+}
+
+// goroutineExcess compares the router's goroutines with those of a fresh
+// reference router configured with the realms that exist now.
+func (x *Exec) goroutineExcess() int {
+	a := x.routerGoroutines()
+	cfg := &router.Config{}
+	for _, rc := range x.realms {
+		if rc.alive {
+			cfg.RealmConfigs = append(cfg.RealmConfigs, x.realmConfig(rc))
+		}
+	}
+	ref, err := router.NewRouter(cfg, log.New(io.Discard, "", 0))
+	if err != nil {
+		return 0
+	}
+	synctest.Wait()
+	b := x.routerGoroutines()
+	ref.Close()
+	synctest.Wait()
+	return a - (b - a)
 }
 
 // routerGoroutines counts goroutines that have a frame of the nexus router or
@@ -938,16 +1061,18 @@ func (x *Exec) abstractEvent(p *peer, m *wamp.Event, t int) Msg {
 	return r
 }
 
-// collect drains every peer and derives the bound values of the step.
-func (x *Exec) collect(in Input) ([]SessOut, Bind) {
-	var outs []SessOut
-	var b Bind
+// collect drains every peer and derives the bound values of the step, per realm.
+func (x *Exec) collect(in Input) ([][]SessOut, []Bind) {
+	outs := make([][]SessOut, len(x.realms))
+	binds := make([]Bind, len(x.realms))
 	for _, name := range x.order {
 		p := x.peers[name]
 		raw := p.take()
 		if len(raw) == 0 {
 			continue
 		}
+		x.realmCtx = x.realms[p.realm]
+		b := &binds[p.realm]
 		so := SessOut{S: name}
 		for _, s := range raw {
 			m := x.abstract(p, s)
@@ -957,6 +1082,9 @@ func (x *Exec) collect(in Input) ([]SessOut, Bind) {
 			}
 			if m.K == "CLOSED" {
 				p.gone = true
+			}
+			if p.realm != in.R {
+				continue
 			}
 			switch m.K {
 			case "WELCOME":
@@ -996,9 +1124,10 @@ func (x *Exec) collect(in Input) ([]SessOut, Bind) {
 				}
 			}
 		}
-		outs = append(outs, so)
+		outs[p.realm] = append(outs[p.realm], so)
 	}
-	return outs, b
+	x.realmCtx = x.realms[in.R]
+	return outs, binds
 }
 
 // ---------------------------------------------------------------------------
@@ -1252,7 +1381,7 @@ func (x *Exec) learnBaseline() {
 	x.baseRegs = map[wamp.ID]bool{}
 	cli, rtr := transport.LinkedPeers()
 	go func() { _ = x.rt.Attach(rtr) }()
-	cli.Send() <- &wamp.Hello{Realm: realmURI, Details: helloDetails(Join{Authid: "aux", Local: true})}
+	cli.Send() <- &wamp.Hello{Realm: x.uri, Details: helloDetails(Join{Authid: "aux", Local: true})}
 	if _, ok := (<-cli.Recv()).(*wamp.Welcome); !ok {
 		panic("harness: auxiliary session not welcomed")
 	}
